@@ -119,9 +119,13 @@ def body(ws: typing.Any, idx: int, d: typing.Any, with_id: bool = True) -> typin
         lines.append("@deprecated")
     if with_id:
         lines.append("uint32 ID = %d" % idx)
+        lines.append("uint16 REV = %d" % d.get("rev", 0))  # a revision counter that histories bump by editing the file
     lines.append("uint8[%d] payload" % d["size"])
     for k, ref in enumerate(d["refs"]):
         lines.append("%s ref%d" % (ref_text(ws, d, ref), k))
+    for k, ref in enumerate(d["refs"]):
+        # a constant of the referenced definition read through an expression: must be that definition's *current* value
+        lines.append("uint16 COPY%d = %s.REV" % (k, ref_text(ws, d, dict(ref, array=None))))
     for k, ref in enumerate(d["refs"]):
         if ref.get("expr"):
             # the same reference once more inside an expression: resolution must give the same definition there
